@@ -3,6 +3,11 @@
 package hx
 
 import (
+	"github.com/goghcrow/yae/closure"
+	"github.com/goghcrow/yae/compiler"
+	"github.com/goghcrow/yae/parser/ast"
+	"github.com/goghcrow/yae/parser/oper"
+	"github.com/goghcrow/yae/parser/pos"
 	"github.com/goghcrow/yae/types"
 	"github.com/goghcrow/yae/val"
 	"github.com/goghcrow/yae/vm"
@@ -301,6 +306,8 @@ func H11_verify() {
 // wideProgram: literals, calls and conditionals around the stack-growth and
 // operand-width boundaries either verify and evaluate like the closure
 // compiler, or are refused at compile time exactly beyond the capacities.
+var tFlags = ObjT([]string{"flag", "other"}, []*types.Type{types.Bool, types.Bool})
+
 func wideProgram(mode int) {
 	checkEquivalence := mode == 1
 	e := NewEngine()
@@ -308,8 +315,21 @@ func wideProgram(mode int) {
 	if sv.Thorough() {
 		sizes = append(sizes, 1043, 65535, 65536)
 	}
-	n := sizes[sv.Choice("n", len(sizes))]
-	form := sv.Choice("form", 6)
+	form := sv.Choice("form", 9)
+	var n int
+	if form == 8 {
+		// a conditional whose branches are just below / just beyond 64 KiB of
+		// bytecode, built as an AST (the lexer is quadratic in the source
+		// length and not what is examined here)
+		n = []int{8100, 8200, 16400}[sv.Choice("n64k", 3)]
+		sv.MoreFuel(600_000_000)
+	} else if form >= 6 {
+		// constant-pool index sweep: the operand of the instruction just before
+		// a prefix operator takes every low byte from 16 to 48
+		n = 14 + sv.Choice("pool", 34)
+	} else {
+		n = sizes[sv.Choice("n", len(sizes))]
+	}
 	var src string
 	capacity := 65535
 	switch form {
@@ -330,6 +350,19 @@ func wideProgram(mode int) {
 			parts += itoa(i)
 		}
 		src = parts
+	case 6, 7: // n distinct constants, then a negated variable / member whose name constant follows them
+		parts := ""
+		for i := 0; i < n; i++ {
+			if i > 0 {
+				parts += " + "
+			}
+			parts += itoa(i)
+		}
+		if form == 6 {
+			src = parts + " > a || !c"
+		} else {
+			src = parts + " > a || !o.flag && !o.other"
+		}
 	default: // nested lazy calls n deep (quick: capped)
 		m := n
 		if m > 60 {
@@ -337,9 +370,27 @@ func wideProgram(mode int) {
 		}
 		src = repeatSrc("if(c, a, ", m, "") + "b" + repeatSrc(")", m, "")
 	}
-	tys := map[string]*types.Type{"a": types.Num, "b": types.Num, "c": types.Bool}
-	names := []string{"a", "b", "c"}
-	expr, ty, cls := e.Front(src, tys, names)
+	tys := map[string]*types.Type{"a": types.Num, "b": types.Num, "c": types.Bool, "o": tFlags}
+	names := []string{"a", "b", "c", "o"}
+	var expr ast.Expr
+	var ty *types.Type
+	var cls string
+	if form == 8 {
+		// a balanced tree of n leaves: the same amount of bytecode as a chain,
+		// without n nested calls in the compiler
+		var sumN func(name string, k int) ast.Expr
+		sumN = func(name string, k int) ast.Expr {
+			if k == 1 {
+				return ast.Var(name, pos.Unknown)
+			}
+			return ast.Binary(ast.Var("+", pos.Unknown), oper.INFIX_L, sumN(name, k/2), sumN(name, k-k/2), pos.Unknown)
+		}
+		sum := func(name string) ast.Expr { return sumN(name, n) }
+		tree := ast.Call(ast.Var("if", pos.Unknown), []ast.Expr{ast.Var("c", pos.Unknown), sum("a"), sum("b")}, 0, pos.Unknown)
+		cls = sv.Outcome(func() { expr, ty = e.CheckAST(tree, tys, names) })
+	} else {
+		expr, ty, cls = e.Front(src, tys, names)
+	}
 	sv.Assert("accepted", cls == "ok")
 	var prog vm.ZZProgram
 	ccls := sv.Outcome(func() { prog = vm.ZZCompileProgram(expr, e.Rt) })
@@ -347,7 +398,7 @@ func wideProgram(mode int) {
 	switch form {
 	case 0, 1:
 		over = n > capacity
-	case 3:
+	case 3, 8:
 		over = 2*4*n > capacity // each operand is OP_LOAD + u16 and an intrinsic byte
 	case 4:
 		over = n+8 > capacity
@@ -367,12 +418,19 @@ func wideProgram(mode int) {
 		// not executed: bytecode with, say, a backward jump may not terminate
 		return
 	}
+	if form == 8 || mode == 4 {
+		// tens of thousands of instructions on four back ends: the structure
+		// is what this form (and the termination claim) is about
+		return
+	}
 	a, b := sv.Float64("a"), sv.Float64("b")
 	cv := val.False
 	if sv.Bool("c") {
 		cv = val.True
 	}
-	vals := map[string]*val.Val{"a": val.Num(a), "b": val.Num(b), "c": cv}
+	ov := val.Obj(tFlags.Obj()).Obj()
+	ov.V[0], ov.V[1] = cv, val.False
+	vals := map[string]*val.Val{"a": val.Num(a), "b": val.Num(b), "c": cv, "o": ov.Vl()}
 	res, c := runAll(e, expr, vals, names)
 	if checkEquivalence {
 		// the call-threaded loop stops after 1024 instructions (known finding)
@@ -427,6 +485,73 @@ func H01_wide() { wideProgram(3) }
 // stack-growth path and the operand-width asserts.
 func H02_wide() { wideProgram(2) }
 
+// H12_wide: termination. A compiled wide program - in particular a
+// conditional whose branches approach and exceed 64 KiB - is either refused
+// at compile time or can only run forward (every jump verified to go to a
+// later instruction), so that no short input makes evaluation spin.
+func H12_wide() { wideProgram(4) }
+
 // H03_wide: the same wide / deep programs evaluate alike on all back ends.
 func H03_wide() { wideProgram(1) }
 
+
+// H11_sequence: a compiled program stays what it was when other programs are
+// compiled after it. The constant pool is shared between a program and the
+// bodies of its deferred arguments; a compiler that recycles its buffers must
+// not leave an earlier program's deferred bodies pointing at a pool that a
+// later compilation rewrites. Two or three programs with host lazy functions
+// are compiled one after the other through vm.Compile (the entry the facade
+// uses); every one of them is then run and compared with the closure
+// compiler's result.
+func H11_sequence() {
+	e := NewEngine()
+	e.Register(val.LazyFun(types.Fun("both", []*types.Type{types.Num, types.Num}, types.Num), func(args ...*val.Val) *val.Val {
+		return val.Num(args[0].Fun().Call().Num().V*10 + args[1].Fun().Call().Num().V)
+	}))
+	e.Register(val.LazyFun(types.Fun("pick", []*types.Type{types.Bool, types.Num, types.Num}, types.Num), func(args ...*val.Val) *val.Val {
+		if args[0].Fun().Call().Bool().V {
+			return args[1].Fun().Call()
+		}
+		return args[2].Fun().Call()
+	}))
+	srcs := []string{"both(a, b)", "both(b + 1, a)", "pick(c, a, b * 2)", "both(pick(c, a, b), 7)", "a + b", "both(1, 2) + both(a, 4)"}
+	tys := map[string]*types.Type{"a": tNum, "b": tNum, "c": tBool}
+	names := []string{"a", "b", "c"}
+	n := 2 + sv.Choice("programs", 2)
+	var exprs []ast.Expr
+	var cls []compiler.Closure
+	for k := 0; k < n; k++ {
+		src := srcs[sv.Choice("prog"+itoa(k), len(srcs))]
+		expr, _, c := e.Front(src, tys, names)
+		sv.Assert("accepted", c == "ok")
+		exprs = append(exprs, expr)
+		var cl compiler.Closure
+		cc := sv.Outcome(func() { cl = Backend(0)(expr, e.Rt) })
+		sv.Assert("compiles", cc == "ok")
+		cls = append(cls, cl)
+	}
+	a, b := sv.Float64("a"), sv.Float64("b")
+	cv := val.False
+	if sv.Bool("c") {
+		cv = val.True
+	}
+	vals := map[string]*val.Val{"a": val.Num(a), "b": val.Num(b), "c": cv}
+	mkEnv := func() *val.Env {
+		ve := val.NewEnv()
+		for _, nm := range names {
+			ve.Put(nm, vals[nm])
+		}
+		return ve.Inherit(e.Rt)
+	}
+	for k := 0; k < n; k++ {
+		var got, want *val.Val
+		kk := k
+		g := sv.Outcome(func() { got = cls[kk](mkEnv()) })
+		w := sv.Outcome(func() { want = closure.Compile(exprs[kk], e.Rt)(mkEnv()) })
+		sv.Assert("earlier-program-still-runs-after-later-compilations", g == w)
+		if g == "ok" && w == "ok" {
+			sv.Assert("earlier-program-still-means-the-same", RefSameVal(got, want))
+		}
+	}
+	sv.Reach("ran-all")
+}
